@@ -1,0 +1,14 @@
+//go:build !verif
+
+// Package verifhook provides observation and fault-injection points for the
+// external verification harness. Without the "verif" build tag every function
+// is an empty, inlinable no-op.
+package verifhook
+
+const Enabled = false
+
+func At(point string, detail string)         {}
+func Cancelled()                             {}
+func Worker(kind string, thIdx int, n int)   {}
+func Discard(p interface{}) bool             { return false }
+func Discarded(p interface{}) (string, bool) { return "", false }
